@@ -686,8 +686,16 @@ def eval_term(t, env):
     if t[0] == 'call' and t[1] in ('builtins.max', 'builtins.min', ('global', 'max'), ('global', 'min'), 'numpy.maximum', 'numpy.minimum') and len(t[2]) == 2:
         vals = [eval_term(x, env) for x in t[2]]
         return max(vals) if 'max' in str(t[1]) else min(vals)
-    if t[0] == 'call' and t[1] in ('builtins.float', ('global', 'float')) and len(t[2]) == 1:
+    if t[0] == 'call' and t[1] in ('builtins.float', ('global', 'float'), 'numpy.float64') and len(t[2]) == 1:
         return eval_term(t[2][0], env)
+    if t[0] == 'call' and t[1] in ('builtins.int', ('global', 'int'), 'builtins.round', ('global', 'round'), 'numpy.round', 'numpy.rint',
+                                   'numpy.around', 'numpy.floor', 'math.floor', 'numpy.ceil', 'math.ceil', 'numpy.trunc', 'math.trunc',
+                                   'builtins.abs', ('global', 'abs'), 'numpy.abs', 'numpy.absolute') and len(t[2]) == 1 and not t[3]:
+        import math
+        v = eval_term(t[2][0], env)
+        nm = t[1][1] if isinstance(t[1], tuple) else t[1].split('.')[-1]
+        return Fraction({'int': math.trunc, 'trunc': math.trunc, 'round': round, 'rint': round, 'around': round, 'floor': math.floor,
+                         'ceil': math.ceil, 'abs': abs, 'absolute': abs}[nm](v))
     raise ValueError('cannot evaluate %s' % key(t)[:80])
 
 
